@@ -14,7 +14,14 @@ pub struct C10;
 pub enum LOp {
     /// PREPARE answered by the shim with (id, nparams), or rejected
     Prepare { reply: Option<(u32, usize)> },
-    Execute { id: u32, vals: Vec<u32> },
+    Execute {
+        id: u32,
+        vals: Vec<u32>,
+        /// the shim answers this execution with an error of this kind (the statement stays usable:
+        /// only the client's CLOSE ends it)
+        #[serde(default)]
+        err: Option<u16>,
+    },
     LongData { id: u32, param: u16, data: Vec<u8> },
     /// long data of `len` pattern bytes (kept symbolic)
     LongPat { id: u32, param: u16, seed: u32, len: usize },
@@ -91,7 +98,7 @@ fn model(ops: &[LOp]) -> ModelOut {
                     return out;
                 }
             }
-            LOp::Execute { id, vals } => match live.get(id) {
+            LOp::Execute { id, vals, .. } => match live.get(id) {
                 Some(n) => {
                     let params: Vec<SeenParam> = (0..*n)
                         .map(|k| {
@@ -127,6 +134,7 @@ fn to_conv(ops: &[LOp]) -> Conversation {
     let mut pending: std::collections::HashSet<(u32, u16)> = Default::default();
     let mut cmds = Vec::new();
     let mut ids = Vec::new();
+    let mut errs: Vec<Option<u16>> = Vec::new();
     for op in ops {
         match op {
             LOp::Ping => cmds.push(Cmd::Ping),
@@ -155,7 +163,8 @@ fn to_conv(ops: &[LOp]) -> Conversation {
                 }
                 cmds.push(Cmd::LongData { id: *id, param: *param, data: Blob::Lit(crate::gen::pattern(*seed, *len)) })
             }
-            LOp::Execute { id, vals } => {
+            LOp::Execute { id, vals, err } => {
+                errs.push(*err);
                 let n = live.get(id).copied().unwrap_or(vals.len());
                 // as clients do: parameters supplied as long data are not sent inline
                 let params: Vec<Param> = (0..n)
@@ -168,6 +177,7 @@ fn to_conv(ops: &[LOp]) -> Conversation {
     }
     let mut c = Conversation::new(cmds, vec![]);
     c.auto_ids = Some(ids);
+    c.auto_errs = errs;
     c
 }
 
@@ -177,7 +187,7 @@ impl Prop for C10 {
         "C10"
     }
     fn rule(&self) -> String {
-        "cases = histories of 0-60 operations over PREPARE (shim replies with an id from the pool {1, 2, 3, 0, u32::MAX, 77} and 0-3 declared parameters, or rejects), EXECUTE{id}, SEND_LONG_DATA{id, param, bytes}, CLOSE{id} (live, closed, or never-prepared ids), PING; generated as a valid prefix, optionally one operation on a never-prepared / rejected / closed id, then a tail of valid-looking commands; one enumerated history keeps 17 000 (thorough: 70 000) statements open at once and then uses early, boundary and late ids. Oracle: reference model live: id -> declared parameter count. Valid histories: the callback log equals the model's, executions show the latest declared parameter count, long data sent before a re-prepare or a close is not visible afterwards. First invalid operation: no callback for it or for anything after it, run_on returns Err. Every CLOSE (also of unknown ids) reaches on_close exactly once and adds zero reply bytes. Non-trivial = close->execute, failed-prepare->execute, or a re-prepare of a live id.".into()
+        "cases = histories of 0-60 operations over PREPARE (shim replies with an id from the pool {1, 2, 3, 0, u32::MAX, 77} and 0-3 declared parameters, or rejects), EXECUTE{id}, SEND_LONG_DATA{id, param, bytes}, CLOSE{id} (live, closed, or never-prepared ids), PING; generated as a valid prefix, optionally one operation on a never-prepared / rejected / closed id, then a tail of valid-looking commands; one enumerated history keeps 17 000 (thorough: 70 000) statements open at once and then uses early, boundary and late ids. One execution in six is answered by the shim with an error (1243, 1213, 1205, 1064, ...): the statement stays usable, only the client's CLOSE ends it. Oracle: reference model live: id -> declared parameter count. Valid histories: the callback log equals the model's, executions show the latest declared parameter count, long data sent before a re-prepare or a close is not visible afterwards. First invalid operation: no callback for it or for anything after it, run_on returns Err. Every CLOSE (also of unknown ids) reaches on_close exactly once and adds zero reply bytes. Non-trivial = close->execute, failed-prepare->execute, or a re-prepare of a live id.".into()
     }
     fn assumptions(&self) -> Vec<String> {
         vec!["executions always bind their types (after a re-prepare the protocol requires it), so stale bound types cannot be observed by a conforming client; stale long data and stale parameter counts are".into()]
@@ -210,7 +220,7 @@ impl Prop for C10 {
                 let id = if !dead.is_empty() && g.chance(2, 3) { *g.pick(&dead) } else { *g.pick(&[5u32, 6, 1, 2, 0, u32::MAX]) };
                 if !live.contains(&id) {
                     if g.chance(2, 3) {
-                        ops.push(LOp::Execute { id, vals: vec![g.raw()] });
+                        ops.push(LOp::Execute { id, vals: vec![g.raw()], err: None });
                     } else {
                         // incl. an empty chunk: the id must be checked whatever the payload
                         let n = *g.pick(&[0usize, 0, 1, 2, 9]);
@@ -237,7 +247,8 @@ impl Prop for C10 {
                 }
                 1 if !live.is_empty() => {
                     let id = *g.pick(&live);
-                    ops.push(LOp::Execute { id, vals: (0..3).map(|_| g.raw()).collect() });
+                    let err = if g.chance(1, 6) { Some(*g.pick(&[1243u16, 1213, 1205, 1064, 1105, 1317, 1062, 1146, 1047])) } else { None };
+                    ops.push(LOp::Execute { id, vals: (0..3).map(|_| g.raw()).collect(), err });
                 }
                 2 if !live.is_empty() => {
                     let id = *g.pick(&live);
@@ -280,12 +291,12 @@ impl Prop for C10 {
         let mut ops: Vec<LOp> = (1..=n).map(|id| LOp::Prepare { reply: Some((id, 1)) }).collect();
         for id in [1u32, 2, 16_381, 16_382, 16_383, 16_384, n - 1, n] {
             ops.push(LOp::LongData { id, param: 0, data: vec![id as u8] });
-            ops.push(LOp::Execute { id, vals: vec![id] });
-            ops.push(LOp::Execute { id, vals: vec![id + 1] });
+            ops.push(LOp::Execute { id, vals: vec![id], err: None });
+            ops.push(LOp::Execute { id, vals: vec![id + 1], err: None });
         }
         ops.push(LOp::Close { id: 16_383 });
         ops.push(LOp::Prepare { reply: Some((n + 1, 2)) });
-        ops.push(LOp::Execute { id: n + 1, vals: vec![5, 6] });
+        ops.push(LOp::Execute { id: n + 1, vals: vec![5, 6], err: None });
         // "usable between the PREPARE reply and CLOSE", whatever the connection did before: long
         // data that clients streamed and then abandoned (by closing the statement, or because the
         // shim handed the id out again) - more of it in total than the 64 MiB the server advertises
@@ -303,10 +314,10 @@ impl Prop for C10 {
         }
         abandon.push(LOp::Prepare { reply: Some((1000, 2)) });
         abandon.push(LOp::LongData { id: 1000, param: 1, data: b"hello".to_vec() });
-        abandon.push(LOp::Execute { id: 1000, vals: vec![1, 2] });
+        abandon.push(LOp::Execute { id: 1000, vals: vec![1, 2], err: None });
         abandon.push(LOp::Prepare { reply: Some((7, 1)) });
         abandon.push(LOp::LongData { id: 7, param: 0, data: b"x".to_vec() });
-        abandon.push(LOp::Execute { id: 7, vals: vec![3] });
+        abandon.push(LOp::Execute { id: 7, vals: vec![3], err: None });
         abandon.push(LOp::Close { id: 1000 });
         vec![Case { ops }, Case { ops: abandon }]
     }
